@@ -710,6 +710,7 @@ def gamma_conversion(ctx, p, RULE="C13-R3"):
     ret = eb.local(0)
     okret = ret[0] == "agg" and ret[3] and dict(zip(ret[3], [show(x) for x in ret[2]])) == {"buffer": "std::vec::from_elem(0.0, Add(m2, 1))", "alpha": "self.alpha", "gamma": "gamma"}
     names = {d.get("name"): l for l, d in enumerate(b.locals) if d.get("name")}
+    range_wrong = []
 
     def lv_kind(e):
         lv = loop_var_parts(e)
@@ -718,9 +719,14 @@ def gamma_conversion(ctx, p, RULE="C13-R3"):
         d, s_, e_ = lv
         if d == "up" and to_poly(s_) == Poly.const(1) and show(e_) in ("Add(m2, 1)",):
             return "I"
-        if d == "up" and to_poly(s_) == Poly.const(1) and e_[0] == "call" and e_[1].endswith("::min") and len(e_[2]) == 2:
+        if d == "up" and show(e_) in ("m2", "Add(m2, 1)", "Add(m2, 2)", "Sub(m2, 1)") or (d == "up" and show(s_) in ("0", "1", "2") and "m2" in show(e_) and "len(" not in show(e_)):
+            range_wrong.append("the output index runs %s..%s, expected 1..=m2" % (show(s_), show(e_)[:40]))
+            return "I"
+        if d == "up" and to_poly(s_) == Poly.const(1) and e_[0] == "call" and e_[1].rsplit("::", 1)[-1] in ("min", "max") and len(e_[2]) == 2:
             a_, b_ = e_[2]
             if {("len" if (x[0] == "len" and show(x[1]) == "self") else ("I" if lv_kind(x) == "I" else "?")) for x in (a_, b_)} == {"len", "I"}:
+                if e_[1].endswith("::max"):
+                    range_wrong.append("the convolution index runs to max(len, i), expected min(len, i)")
                 return "K"
         return None
 
@@ -813,6 +819,12 @@ def gamma_conversion(ctx, p, RULE="C13-R3"):
                         if q_[0] == "bin" and q_[1] == "Div":
                             rest, v = to_poly(a_, at), q_
                             break
+                elif v[0] == "bin" and v[1] == "Sub" and v[3][0] == "bin" and v[3][1] in ("Div", "Mul") and to_poly(v[2], at) == Ci:
+                    wrong_store.append("c'[i] <- c[i] - (..): the recursion term is subtracted")
+                    continue
+                if v[0] == "bin" and v[1] == "Mul" and any(to_poly(x_, at) == I for x_ in (v[2], v[3])) and any(to_poly(x_, at) == G2 * S2 - G1 * S1 for x_ in (v[2], v[3])):
+                    wrong_store.append("c'[i] <- (g2*S2 - g1*S1) * i: multiplied by i instead of divided")
+                    continue
                 if v[0] == "bin" and v[1] == "Div" and to_poly(v[3], at) == I:
                     num = to_poly(v[2], at)
                 if num is not None and num == G2 * S2 - G1 * S1:
@@ -824,6 +836,10 @@ def gamma_conversion(ctx, p, RULE="C13-R3"):
                         wrong_store.append("c'[i] <- %s + (g2*S2 - g1*S1)/i on the `i %s len` side" % (rest, "<" if inside else ">="))
                 elif num is not None:
                     wrong_store.append("c'[i] <- .. + (%s)/i" % str(num)[:100])
+    for w_ in sorted(set(range_wrong)):
+        ctx.fail(RULE, b.path, "recursion range", "gc2gc: %s" % w_, b.loc())
+    if range_wrong:
+        return
     for w_ in wrong_store:
         ctx.fail(RULE, b.path, "recursion value", "gc2gc stores %s; expected c[i]*[i < len] + (g2*S2 - g1*S1)/i" % w_, b.loc())
     if wrong_acc or wrong_store:
